@@ -630,13 +630,13 @@ def spelled_ok(p):
 
 def model_load(drv, cwd, root, doc, parses):
     """two-phase call: first learn which paths the model asks the existence oracle about, answer them
-    with os.path.exists, then run model and spec with those answers."""
+    with os.path.isfile (the test load_database makes since the repair of F-C13-3), then run model and spec with those answers."""
     req = {"op": "dbload", "cwd": cwd, "root": root, "doc": doc, "parses": [p for p in parses if p[1] is not None]}
     r1 = drv.ask(req)
-    ex = [[p, os.path.exists(p)] for p in dict.fromkeys(r1.get("candidates", []))]
+    ex = [[p, os.path.isfile(p)] for p in dict.fromkeys(r1.get("candidates", []))]
     exl = []
     for loc in r1["spec"].get("candidates", []):
-        exl.append([loc, os.path.exists("/" + "/".join(loc))])
+        exl.append([loc, os.path.isfile("/" + "/".join(loc))])
     req["exists"] = ex
     req["exists_loc"] = exl
     return drv.ask(req)
@@ -1174,7 +1174,7 @@ def run(ctx, drv, scale=1.0):
         "real directory (no F-C13-1 hazard)",
         "os.path (posixpath), pathlib.PurePosixPath.suffix, shlex.split and jsonschema are modelled / trusted libraries; "
         "their models are compared exhaustively on short strings on every run",
-        "the existence oracle of the model is answered by os.path.exists on exactly the paths the model asks about",
+        "the existence oracle of the model is answered by os.path.isfile (the test load_database makes) on exactly the paths the model asks about",
         "compiler emulation (argv -> passes and raw include_paths) is taken from the real ArgumentParser (C11/C12); the "
         "oracle reads -I/-Idir/-isystem itself",
         "lexical `..` elimination equals the kernel's reading only when no `..` follows a symlinked or non-existent "
